@@ -787,6 +787,11 @@ var dRichSegs = []dPath{
 
 func (g *dGen) path(abs int, group bool) (dPath, int) {
 	if g.mode == "x" {
+		if group && g.r.Intn(4) == 0 {
+			// a group whose path ENDS in one or two slashes: whatever is declared inside starts with a slash of its own,
+			// so the joint has two, three or four in a row (an empty inner segment each time beyond the first)
+			return []dPath{{text: "/g/", long: "/g/"}, {text: "/h//", long: "/h//"}}[g.r.Intn(2)], abs + 1
+		}
 		n := 1 + g.r.Intn(2)
 		p := dPath{}
 		for i := 0; i < n; i++ {
